@@ -4,6 +4,8 @@ from __future__ import annotations
 import itertools
 from fractions import Fraction
 
+import math
+
 import numpy as np
 
 from geolib import call_impl
@@ -343,7 +345,67 @@ def touching_stream(ctx, n):
                 break
 
 
+def far_and_scaled_stream(ctx, n):
+    """(a) proper circles / spheres whose centre is far from the origin compared with their radius (badly conditioned matrices, ordinary
+    geometry): not degenerate, and two such circles meet in their two common points plus I, J; (b) conic x conic with the receiver or
+    the argument given by a representative scaled by 1e4 ... 1e6: the same common points"""
+    import geometer as g
+    rng = ctx.rng
+    for k in range(n):
+        if k % 2 == 0:
+            d = rng.choice([100.0, 300.0, 600.0, 1000.0])
+            c = rng.choice([(d, 0.0), (0.0, -d), (d / 2, d / 2), (-d, d / 4)])
+            r = float(rng.choice([1, 2, 5]))
+            desc = f"circle centre {c} radius {r} / sphere centre {(c[0], c[1], 0.0)}"
+            ctx.case(desc)
+            ctx.count("far:is_degenerate")
+            C1 = g.Circle(g.Point(*c), r)
+            S1 = g.Sphere(g.Point(c[0], c[1], 0.0), r)
+            deg = call_impl(lambda: (bool(C1.is_degenerate), bool(S1.is_degenerate)))
+            if deg[0] != "ok" or deg[1] != (False, False):
+                ctx.disagree("C15:is_degenerate:far-from-origin", desc, (False, False), deg[1:3], replay=[desc])
+                continue
+            # a second circle of the same radius whose centre is shifted by (2r * 3/5, 2r * 4/5) * 1/2: common points known exactly
+            u = np.array([0.6, 0.8]) * r          # half the distance of the centres: |u| = r -> hmm tangent; use 0.6 r
+            u = np.array([0.6 * r, 0.0])
+            C2 = g.Circle(g.Point(c[0] + 2 * u[0], c[1]), r)
+            h = math.sqrt(r * r - u[0] * u[0])
+            exp = [np.array([c[0] + u[0], c[1] + h, 1.0]), np.array([c[0] + u[0], c[1] - h, 1.0])]
+            res = call_impl(lambda: C1.intersect(C2))
+            ctx.count("far:circle-circle")
+            ok = res[0] == "ok" and len(res[1]) <= 4
+            if ok:
+                got = [np.asarray(x.array) for x in res[1]]
+                ok = all(any(proj_close_nn(e, p, 1e-6) for p in got) for e in exp)
+            if not ok:
+                ctx.disagree("C15:conic-conic:far-from-origin", desc + f" x the same circle shifted by {2 * u[0]}", [e.tolist() for e in exp],
+                             res[1:3] if res[0] != "ok" else [np.round(np.asarray(x.array), 5).tolist() for x in res[1]], replay=[desc])
+        else:
+            # large factors only: a factor 1e-3 puts det(lam M) = lam^3 det M below the library's absolute tolerance (its documented regime)
+            lam = rng.choice([1e4, 1e5, 1e6, -1e5, 3e4])
+            which = rng.choice(["receiver", "argument"])
+            M = np.diag([1.0, 1.0, -float(rng.choice([4, 9, 16]))])
+            E = g.Ellipse(g.Point(float(rng.randint(-1, 1)), rng.choice([0.5, 0.0, -0.5])), 3.0, 1.0)
+            base = call_impl(lambda: g.Conic(M).intersect(E))
+            if base[0] != "ok":
+                continue
+            A, B = (g.Conic(lam * M), E) if which == "receiver" else (g.Conic(M), type(E)(lam * np.asarray(E.array)) if False else g.Conic(lam * np.asarray(E.array)))
+            desc = f"conic diag{np.diag(M).tolist()} x ellipse {np.round(np.asarray(E.array), 4).tolist()}, {which} scaled by {lam}"
+            ctx.case(desc)
+            ctx.count("scaled:conic-conic:" + which)
+            res = call_impl(lambda: A.intersect(B))
+            exp = [np.asarray(x.array) for x in base[1]]
+            ok = res[0] == "ok" and len(res[1]) <= 4
+            if ok:
+                got = [np.asarray(x.array) for x in res[1]]
+                ok = all(any(proj_close_nn(e, p, 1e-5) for p in got) for e in exp) and all(any(proj_close_nn(e, p, 1e-5) for e in exp) for p in got)
+            if not ok:
+                ctx.disagree(f"C15:conic-conic:scaled-{which}", desc, [np.round(e, 5).tolist() for e in exp],
+                             res[1:3] if res[0] != "ok" else [np.round(np.asarray(x.array), 5).tolist() for x in res[1]], replay=[desc])
+
+
 def correspondence(ctx):
+    far_and_scaled_stream(ctx, ctx.budget(40, 400))
     complex_planes_stream(ctx, ctx.budget(30, 300))
     homothetic_conics_stream(ctx, ctx.budget(40, 400))
     complex_lines_stream(ctx, ctx.budget(50, 500))
